@@ -684,6 +684,12 @@ GUARD_DEF = ("fun c : tree * formula atom * res TV * res bool * bool * bool => "
              "negb (match (if existsb (var_eqb CST) (fvars atom atom_free f) "
              "then inst_const atom atom_inst T CST f else Ok f) with "
              "Ok f' => mexpr_guard T f' | Raise _ => false end)")
+# hypotheses of C03_evaluate_correct_atoms / C03_solver_check_correct_atoms (Props/C03.v) as the verified
+# boolean `evaluate_guard` (EvalInstFacts.v), evaluated on the UNINSTANTIATED formula of EVERY
+# encodable first-strategy case; `mismatches` lists the cases where the guard HOLDS
+EGUARD_IMPORTS = "EvalAtoms EvalFacts EvalMexprCheck EvalInstFacts"
+EGUARD_DEF = ("fun c : tree * formula atom * res TV * res bool * bool * bool => "
+              "let '(T, f, ev, ck, sp, cmp_spec) := c in negb (evaluate_guard T CST f)")
 
 
 def run(run):
@@ -797,6 +803,7 @@ def run(run):
                     meta["unencodable"] = str(e)
                     lit = None
                 meta["keps"] = py_keps(fobj, g)
+                meta["mexpr"] = bool(has_mexpr(ast))
                 # K_cons_rel: the formula uses `consecutive` and the implementation's verdict is
                 # exactly the specification's verdict with consecutive read as the code computes it
                 meta["kcons"] = (uses_consecutive(fobj) and not agrees_with_spec(ev, ck, sp)
@@ -973,6 +980,40 @@ def run(run):
                 break
     except RuntimeError as e:
         run.violation({"kind": "guard-not-evaluable", "obligation": "EvalMexprCheck.v mexpr_guard",
+                       "error": str(e)[-2500:]}, found_input=False)
+
+    # ---- hypotheses of C03_evaluate_correct_atoms on ALL generated first-strategy cases ----
+    # (the theorem is about evaluate()/check() on the parsed / API-built formula itself: inside the
+    # guard, theorem + correspondence predict a definite verdict equal to the specification's and no
+    # exception from either entry point)
+    try:
+        ehold, edt = lib.coq_run_shards("c03e", EGUARD_IMPORTS, EGUARD_DEF, shards)
+        n_all = sum(len(ms) for ms in smeta)
+        einside = [smeta[k][i] for (k, i) in ehold]
+        by_g = {}
+        for ms in smeta:
+            for m in ms:
+                by_g.setdefault(m["grammar"], [0, 0])[0] += 1
+        for m in einside:
+            by_g[m["grammar"]][1] += 1
+        run.cov["evaluate_theorem_guard"] = {"cases": n_all, "guard_holds": len(einside),
+                                             "with_match_expression_inside": sum(1 for m in einside if m.get("mexpr")),
+                                             "per_grammar_cases_inside": by_g, "coq_seconds": round(edt, 1)}
+        print(f"[C03] first-strategy cases={n_all} inside the guard of C03_evaluate_correct_atoms={len(einside)}",
+              flush=True)
+        if n_all and len(einside) * 5 < n_all:
+            run.violation({"kind": "fewer than 20% of the generated cases satisfy the hypotheses of "
+                                   "C03_evaluate_correct_atoms", "inside": len(einside), "cases": n_all,
+                           "obligation": "harness/c03.py generators / evaluate_guard"}, found_input=False)
+        for m in einside:
+            if not agrees_with_spec(m["evaluate"], m["check"], m["spec"]):
+                run.violation({"kind": "a case inside the guard of C03_evaluate_correct_atoms departs from the specification",
+                               "witness": {k: m[k] for k in ("grammar", "tree", "input", "formula", "source", "how")},
+                               "evaluate": m["evaluate"], "check": m["check"], "spec": m["spec"],
+                               "theorem": "Props/C03.v C03_evaluate_correct_atoms / C03_solver_check_correct_atoms + correspondence"})
+                break
+    except RuntimeError as e:
+        run.violation({"kind": "guard-not-evaluable", "obligation": "EvalInstFacts.v evaluate_guard",
                        "error": str(e)[-2500:]}, found_input=False)
 
     # ---- classification ----
